@@ -131,6 +131,18 @@ func (e *endpoint) closeConns() {
 	}
 }
 
+// halfClose sends a FIN on every accepted connection and keeps the sockets open
+func (e *endpoint) halfClose() {
+	e.mu.Lock()
+	cs := append([]net.Conn(nil), e.conns...)
+	e.mu.Unlock()
+	for _, c := range cs {
+		if tc, ok := c.(*net.TCPConn); ok {
+			tc.CloseWrite()
+		}
+	}
+}
+
 func (e *endpoint) acceptLoop(ln net.Listener, inc int) {
 	for {
 		c, err := ln.Accept()
@@ -1013,6 +1025,19 @@ func runC06(s c06Scn) []ev {
 		if s.Kind == "stallclose" {
 			x.e.closeConns()
 		}
+		if s.Kind == "stallfin" {
+			// the endpoint half-closes (FIN; the socket stays open and is still not read) while the writer sits in the
+			// blocked write; traffic goes on against the still silent endpoint, then it closes for good and recovers
+			x.e.halfClose()
+			for j := 0; j < post && i < s.Lines; j++ {
+				i++
+				hand(i)
+				if j%50 == 0 {
+					time.Sleep(2 * time.Millisecond)
+				}
+			}
+			x.e.closeConns()
+		}
 		atomic.StoreInt32(&x.e.mode, mHealthy) // resumes; reads everything from now on
 		for j := 0; j < post && i < s.Lines; j++ {
 			i++
@@ -1026,7 +1051,7 @@ func runC06(s c06Scn) []ev {
 	}
 	go func() {
 		defer close(done)
-		if s.Kind == "stall" || s.Kind == "stallclose" {
+		if s.Kind == "stall" || s.Kind == "stallclose" || s.Kind == "stallfin" {
 			stallEv = stall()
 			return
 		}
